@@ -1,17 +1,14 @@
-/* vocabulary for p?gstrf_pivotL.  Arrays have constant capacities: CAP columns/row ids, LC row
- * subscripts, LUC stored values, NP threads.  Ghost copies g_lsub0/g_lu0 hold the pre-state. */
-#define FSUPC (Glu->xsup[Glu->supno[jcol]])
-#define LPTR (Glu->xlsub[FSUPC])
-#define NSUPR (Glu->xlsub_end[FSUPC] - LPTR)
-#define NSUPC (jcol - FSUPC)
-#define XF (Glu->xlusup[FSUPC])
-#define XJ (Glu->xlusup[jcol])
-#define DIAGIND (inv_perm_c[jcol])
-#define LSUB(q) (Glu->lsub[LPTR + (q)])
-#define LSUB0(q) (g_lsub0[LPTR + (q)])
-#define VAL(c,q) (((@T@*)Glu->lusup)[XF + (c)*NSUPR + (q)])
-#define VAL0(c,q) (g_lu0[XF + (c)*NSUPR + (q)])
-#define ABS0(q) ABSV(VAL0(NSUPC,q))
-#define ISCAND(q) (NSUPC <= (q) && (q) < NSUPR)
+/* vocabulary for p?gstrf_pivotL.  The harness owns the arrays (in_*), so clauses name them directly;
+ * ghost scalars g_fsupc.. are bound to the supernode geometry by the requires clause [geometry].
+ * Capacities: CAP columns/row ids, LC row subscripts, LUC stored values, NP threads.
+ * Ghost copies g_lsub0/g_lu0 hold the pre-state. */
+#define LSUB(q) in_lsub[g_lptr + (q)]
+#define LSUB0(q) g_lsub0[g_lptr + (q)]
+#define VAL(c,q) in_lusup[g_xf + (c)*g_nsupr + (q)]
+#define VAL0(c,q) g_lu0[g_xf + (c)*g_nsupr + (q)]
+#define ABS0(q) ABSV(VAL0(g_nsupc,q))
+#define ISCAND(q) (g_nsupc <= (q) && (q) < g_nsupr)
 #define PIVMAX ABS0(g_m)
-#define PIV VAL(NSUPC,NSUPC)
+#define PIV VAL(g_nsupc,g_nsupc)
+#define DIAGIND in_inv_perm_c[jcol]
+#define OLDROW g_oldrow
